@@ -935,6 +935,10 @@ def witnesses():
     # D13: same-named data import after an include: the included closure sees the later value
     out.append(("w-d13", W([d1, d2, jq(["lib", "mf.jq"], [], [("f", 0, "mf.f", [("$d", 0, True, False)])])],
                           {"imports": [dat("d1", "d"), inc("mf"), dat("d2", "d")], "defs": [], "refs": [ref("f"), ref("$d")]})))
+    # D13 x D15: a data import between two includes of a file that imports the same alias
+    m1d = jq(["lib", "m1d.jq"], [dat("d1", "d")], [("x", 0, "m1d.x", [])])
+    out.append(("w-d13-d15", W([d1, d2, m1d], {"imports": [inc("m1d"), dat("d2", "d"), inc("m1d")],
+                                               "defs": [("w", 0, "main.w", [("$d", 0, True, False)])] and [], "refs": [ref("x"), ref("$d")]})))
     # D15: data variables of an included file
     out.append(("w-d15", W([d1, jq(["lib", "m5.jq"], [dat("d1", "d")], [("dd", 0, "m5.dd", [("$d", 0, True, False)])])],
                           {"imports": [inc("m5")], "defs": [], "refs": [ref("dd"), ref("$d::d")]})))
